@@ -35,3 +35,44 @@ def register(claim):
                'flag bundles) against the specification.',
           note=NOTE_COMMON + ' Command lines are restricted to the WellShaped predicate of Argv.tla (DESIGN Appendix A).',
           ref='DESIGN.md section 5, C19')
+    claim('C01',
+          technique='TLA+ ConstraintSem (discovery and satisfaction transcribed and specified) with the operator-level '
+                    'theorem Closure checked by TLC on every grid column; VerifySession state machine; every abstract '
+                    'column replayed through real discover_df -> verify_df/detect_df; rich sessions validated by a TLC trace spec',
+          text='TLC proves on every column of <= 3/4 cells over the value grid of each type that what ImplDiscover reports '
+               'satisfies ImplSat and SpecSat (ClosureHolds) and that every discover/serialise/verify path of VerifySession '
+               'keeps Closure.  Each abstract column x dtype variant x rex runs through the real discover -> verify/detect '
+               'chain, and 400/3000 random sessions over 21 column kinds (specials, extremes, unicode, >20 categories, '
+               'zero rows) x dict/file x verify/detect x repair are recorded and judged by Trace_VerifySession.',
+          note=NOTE_COMMON + ' Known findings D2 (tz-aware columns) and D25 (a field called n_failures).',
+          ref='DESIGN.md section 5, C01')
+    claim('C02',
+          technique='TLA+ case analysis: SpecSat (documented meaning) vs ImplSat (transcription of the verifiers) in '
+                    'ConstraintSem.tla, TLC exhaustive over columns x constraint families; the case table written by TLC is '
+                    'replayed on the real verify_df',
+          text='For every column of <= 3/4 cells and its family of ~150 constraints (on / inside / outside every boundary, '
+               '3 precisions x 4 epsilons, sign classes, 31 type lists x strict/sloppy, lengths, nulls, duplicates, allowed '
+               'values, regular expressions, null-valued, missing field) TLC checks ImplSat = SpecSat where the documentation '
+               'fixes the answer, and emits expected verdicts; the harness runs each family through real verify_df on every '
+               'dtype variant and compares verdicts, totals, per-field counts and to_frame().',
+          note=NOTE_COMMON + ' Known finding D2 (min/max on tz-aware columns raise).',
+          ref='DESIGN.md section 5, C02')
+    claim('C06',
+          technique='TLA+ SpecFlags/ImplFlags in ConstraintSem.tla (TLC exhaustive) + DetectSession.tla state machine for '
+                    'the output file and record counts; case-table replay on detect_df; recorded multi-run detection '
+                    'sessions validated by Trace_DetectSession',
+          text='Per-record flags of every failing demanded constraint are compared with SpecFlags on every grid column and '
+               'dtype variant; verdicts of detect are compared with the specification; 200/1200 recorded sessions (several runs '
+               'on one output path, stale files planted, every option drawn from the full product, csv/parquet/no file) are '
+               'judged line by line: failure counts, partition, output = failing records, file exists iff some constraint '
+               'failed, input frame unchanged unless in place.',
+          note=NOTE_COMMON + ' Known findings D2 and D24 (detection of date bounds on tz-aware / date-object columns raises).',
+          ref='DESIGN.md section 5, C06')
+    claim('C07',
+          technique='TLA+ SpecDiscover vs ImplDiscover in ConstraintSem.tla, TLC exhaustive; expected discovery records '
+                    'replayed on discover_df for every column x dtype variant, plus a 0..25 category sweep',
+          text='TLC checks transcription = specification of discovery and the Attained theorem on every grid column and '
+               'writes the expected statistics; the harness compares them with real discover_df output key by key.',
+          note=NOTE_COMMON + ' no_duplicates on bool/date fields and the sign of an all-null field are not demanded. '
+               'The SQLite side is exercised by the C08 check.',
+          ref='DESIGN.md section 5, C07')
